@@ -38,6 +38,45 @@ func runNamePair(c *core.Ctx) []core.Obligation {
 		}
 		return ""
 	}
+	// the wedge predicates (added after round-9 seed C07-r9m2, ContainsNested ending in WedgeIntersects): where two
+	// loops share a vertex the relation of the loops is read off the relation of the two wedges at that vertex, and a
+	// containment question asks WedgeContains, an intersection question WedgeIntersects. The kind of the question is
+	// taken from the function's name or, for the loopRelation implementations, from the receiver type's name.
+	nwedge := 0
+	for _, fn := range c.GeoFuncs() {
+		if fn.Synthetic != "" || fn.Pkg == nil || fn.Pkg.Pkg.Name() != "s2" {
+			continue
+		}
+		k := kind(fn.Name())
+		if k == "" && fn.Signature.Recv() != nil {
+			t := strings.TrimPrefix(fn.Signature.Recv().Type().String(), "*")
+			k = kind(t[strings.LastIndex(t, ".")+1:])
+		}
+		if k == "" {
+			continue
+		}
+		core.AllInstrs(fn, func(in ssa.Instruction) {
+			ci, ok := in.(ssa.CallInstruction)
+			if !ok {
+				return
+			}
+			f := core.StaticCallee(ci)
+			if f == nil || f.Signature.Recv() != nil || (f.Name() != "WedgeContains" && f.Name() != "WedgeIntersects") {
+				return
+			}
+			nwedge++
+			construct := "wedge:" + core.FuncName(fn)
+			if (k == "contains") == (f.Name() == "WedgeContains") {
+				obs = append(obs, core.Ob("R-NAMEPAIR", construct, c.Pos(in.Pos()), core.FuncName(fn), core.Discharged, "a "+k+" question asks "+f.Name()+" of the wedges at a shared vertex"))
+			} else {
+				obs = append(obs, core.Ob("R-NAMEPAIR", construct, c.Pos(in.Pos()), core.FuncName(fn), core.Violated,
+					"a "+k+" question is decided at a shared vertex by "+f.Name()+": two wedges that merely overlap are then taken as one containing the other (or the converse), so two loops that share a vertex and partly overlap there get the wrong relation"))
+			}
+		})
+	}
+	if nwedge < 3 {
+		obs = append(obs, core.Ob("R-NAMEPAIR", "wedge:anchor", "-", "", core.Violated, fmt.Sprintf("unresolved anchor: only %d calls of the wedge predicates from contains/intersects functions", nwedge)))
+	}
 	for _, fn := range c.GeoFuncs() {
 		if fn.Signature.Recv() == nil || fn.Synthetic != "" {
 			continue
